@@ -1,7 +1,9 @@
 //! C03 — configuration parsing is total: every text yields a config or a well-formed diagnostic.
 //! (i) all single structure-aware mutations of every seed config found in the working tree,
 //! (ii) all token strings up to length L over a 24-token alphabet (alone and inside a minimal config),
-//! (iii) self-reference families (defvar / deftemplate / alias cycles, include loops).
+//! (iii) self-reference families (defvar / deftemplate / alias cycles, include loops),
+//! (iv) every top-level form of every seed relocated into an included file, (v) byte-level variants
+//! (BOM, CRLF, multi-byte comments, truncations, unterminated strings/comments).
 use super::*;
 use crate::par::{PropDef, Stats, Tier};
 use miette::Diagnostic;
@@ -17,7 +19,7 @@ pub fn def() -> PropDef {
         job_level,
         run_job,
         replay,
-        rule: "seeds = every cfg_samples/*.kbd, every ---- block of docs/config.adoc containing a (def...) form, every string literal containing (defsrc in parser/src/cfg/tests*.rs and src/tests/sim_tests/*.rs (read from /repo's working tree at run time). For every seed and every s-expression node: delete, duplicate, swap with next sibling, wrap in a list, unwrap a list, replace by each of {(), 0, 1, 65535, 65536, -1, $n, $undefined, @undefined, \"\", 🔣, _, an unterminated string, an unterminated block comment} (quick: seeds <= 6000 bytes get all mutations, larger seeds delete/()/$undefined only; thorough: everything). Token enumeration: ALL strings of <= L tokens over a 24-token alphabet, alone and spliced into a minimal valid config. Self-reference family: all defvar/defalias/deftemplate tables over <= 3 names with values drawn from the names (cycles), include of self / missing / mutual. Oracle: parser returns Ok or Err without panicking or dying; for Err every labelled span can be read from the named source (in bounds, on char boundaries) and the Debug rendering of the report returns. distinct = distinct (outcome class, first 60 chars of message) pairs; evaluations = parses.",
+        rule: "seeds = every cfg_samples/*.kbd, every ---- block of docs/config.adoc containing a (def...) form, every string literal containing (defsrc in parser/src/cfg/tests*.rs and src/tests/sim_tests/*.rs (read from /repo's working tree at run time). For every seed and every s-expression node: delete, duplicate, swap with next sibling, wrap in a list, unwrap a list, replace by each of {(), 0, 1, 65535, 65536, -1, $n, $undefined, @undefined, \"\", 🔣, _, an unterminated string, an unterminated block comment} (quick: seeds <= 6000 bytes get all mutations, larger seeds delete/()/$undefined only; thorough: everything). Token enumeration: ALL strings of <= L tokens over a 24-token alphabet, alone and spliced into a minimal valid config. Include relocation: every top-level form of every seed (<= 40 kB) moved into an included file with 3 header variants (none, multi-byte comment lines, BOM+CRLF). Byte-level variants of every seed: BOM, CRLF, BOM+CRLF, multi-byte comment lines, unterminated string / raw string / block comment, stray ')', NUL, tabs, truncation at every 1/16 (with and without BOM). Self-reference family: all defvar/defalias/deftemplate tables over <= 3 names with values drawn from the names (cycles), include of self / missing / mutual. Oracle: parser returns Ok or Err without panicking or dying; for Err every labelled span can be read from the named source (in bounds, on char boundaries) and the Debug rendering of the report returns. distinct = distinct (outcome class, first 60 chars of message) pairs; evaluations = parses.",
         assumptions: &[
             "texts further than one mutation from every seed and longer than L tokens are not covered",
             "non-termination is approximated by the worker deadline (a hanging parse is reported as machinery failure with the job index)",
@@ -354,6 +356,10 @@ enum Job {
     Mutate { seed: usize, from: usize, to: usize, light: bool },
     Tokens { first: Vec<usize>, len: usize, wrapped: bool },
     SelfRef,
+    /// every top-level form of the seed moved, one at a time, into an included file
+    Relocate { seed: usize },
+    /// whole-text byte-level variants of the seed (BOM, CRLF, multi-byte comment lines, truncations)
+    Bytes { seed: usize },
 }
 
 const CHUNK: usize = 40;
@@ -370,6 +376,10 @@ fn jobs(tier: Tier) -> &'static Vec<(u32, Job)> {
         v.push((0, Job::SelfRef));
         let big = 6000;
         for (si, s) in seeds().iter().enumerate() {
+            if s.text.len() <= 40000 {
+                v.push((0, Job::Relocate { seed: si }));
+            }
+            v.push((0, Job::Bytes { seed: si }));
             let n = lex_nodes(&s.text).len();
             let light = s.text.len() > big && tier == Tier::Quick && s.text.len() > 40000;
             let mut from = 0;
@@ -585,6 +595,63 @@ fn run_job(tier: Tier, idx: usize, st: &mut Stats) {
             }
             if idx % 97 == 0 {
                 st.sample(json!({"seed": s.name, "nodes": format!("{}..{}", from, to), "mutants": n, "light": light}));
+            }
+        }
+        Job::Relocate { seed } => {
+            let s = &seeds()[*seed];
+            let nodes = lex_nodes(&s.text);
+            let mut n = 0;
+            for (ni, node) in nodes.iter().enumerate() {
+                if node.parent.is_some() {
+                    continue;
+                }
+                let form = &s.text[node.start..node.end];
+                for (hi, header) in ["", ";; en-tête – résumé 🔣\n;; second line\n", "\u{feff};; bom\r\n"].iter().enumerate() {
+                    let mut files = sample_files();
+                    files.insert("moved.kbd".to_string(), format!("{header}{form}\n"));
+                    let text = format!("{}(include moved.kbd){}", &s.text[..node.start], &s.text[node.end..]);
+                    record(st, &text, &files, &format!("{} top-level node {} moved to an included file (header {})", s.name, ni, hi));
+                    n += 1;
+                }
+            }
+            if idx % 53 == 0 {
+                st.sample(json!({"seed": s.name, "family": "relocate-into-include", "variants": n}));
+            }
+        }
+        Job::Bytes { seed } => {
+            let s = &seeds()[*seed];
+            let files = sample_files();
+            let t = &s.text;
+            let crlf = t.replace("\r\n", "\n").replace('\n', "\r\n");
+            let mut variants: Vec<(String, String)> = vec![
+                ("bom".into(), format!("\u{feff}{t}")),
+                ("crlf".into(), crlf.clone()),
+                ("bom+crlf".into(), format!("\u{feff}{crlf}")),
+                ("bom+multibyte-comment".into(), format!("\u{feff};; touché é 🔣\r\n{crlf}")),
+                ("multibyte-comment".into(), format!(";; touché é 🔣\n{t}")),
+                ("block-comment-multibyte".into(), format!("#| é🔣 |#{t}")),
+                ("double-bom".into(), format!("\u{feff}\u{feff}{t}")),
+                ("unterminated-string".into(), format!("{t}\n\"é")),
+                ("unterminated-block-comment".into(), format!("{t}\n#| é")),
+                ("unterminated-raw-string".into(), format!("{t}\nr#\"é")),
+                ("stray-close".into(), format!("{t})")),
+                ("nul-byte".into(), format!("{t}\u{0}")),
+                ("tabs".into(), t.replace(' ', "\t")),
+            ];
+            // truncations at every 1/16 of the text, snapped to char boundaries
+            for k in 1..16 {
+                let mut cut = t.len() * k / 16;
+                while cut > 0 && !t.is_char_boundary(cut) {
+                    cut -= 1;
+                }
+                variants.push((format!("truncate-{k}/16"), t[..cut].to_string()));
+                variants.push((format!("bom+truncate-{k}/16"), format!("\u{feff}{}", &t[..cut])));
+            }
+            for (name, text) in &variants {
+                record(st, text, &files, &format!("{} byte-level variant {}", s.name, name));
+            }
+            if idx % 59 == 0 {
+                st.sample(json!({"seed": s.name, "family": "byte-level variants", "variants": variants.len()}));
             }
         }
         Job::Tokens { first, len, wrapped } => {
